@@ -12,6 +12,8 @@ U.assumptions = [
 
 U.text(r'''
 use core::cmp;
+use core::hash;
+use core::borrow::Borrow;
 use core::ops::Deref;
 use vstd::string::StringSliceAdditionalSpecFns;
 
@@ -52,6 +54,13 @@ pub axiom fn ax_slice_u8()
 
 pub assume_specification [String::as_bytes] (s: &String) -> (r: &[u8])
     ensures r@ == string_bytes(s);
+
+// std contract (assumed): hashing a slice feeds the hasher one uninterpreted function of the
+// hasher state and the element sequence.  C14 needs only that Bytes / BytesMut feed THE SAME thing
+// as the borrowed [u8] (what Borrow<[u8]>-keyed maps require).
+pub uninterp spec fn hash_slice<T, H>(pre: H, s: Seq<T>) -> H;
+pub assume_specification<T: hash::Hash, H: hash::Hasher> [<[T] as hash::Hash>::hash] (s: &[T], state: &mut H)
+    ensures *final(state) == hash_slice::<T, H>(*old(state), s@);
 ''')
 
 # Deref / AsRef used by the one-liners (deref coercions)
@@ -135,3 +144,9 @@ impl<'a, T: ?Sized> PartialOrdSpecImpl<&'a T> for %s where %s: PartialOrd<T> {
         add(file, other, ty, "partial_cmp")
 add("src/bytes_mut.rs", "Bytes", "BytesMut", "eq")
 add("src/bytes_mut.rs", "BytesMut", "Bytes", "eq")
+
+# ---- Hash and Borrow: the same bytes as the borrowed [u8] -------------------------------------------
+for ty, file in (("Bytes", "src/bytes.rs"), ("BytesMut", "src/bytes_mut.rs")):
+    U.block(file, "impl hash::Hash for %s" % ty, fns={
+        "hash": Fn(spec="ensures *final(state) == hash_slice::<u8, H>(*old(state), self@),")})
+    U.block(file, "impl Borrow<[u8]> for %s" % ty, fns={"borrow": Fn(ret="r", spec="ensures ({ let s: &[u8] = r; s@ == self@ }),")})
